@@ -208,7 +208,10 @@ def gen_teams(rng, stratum, beta, n=None, maxsize=8):
 
 
 STRATA = ["typical", "typical", "wide", "corners", "mismatch", "identical", "equalsize", "floor", "lowedge", "lopsided", "bigsum", "newcomers", "integers",
-          "equal-ordinal", "ragged-newcomers", "inflated-twin", "same-sigma", "zero-mu"]
+          "equal-ordinal", "ragged-newcomers", "inflated-twin", "same-sigma", "zero-mu", "sure-thing"]
+
+
+COINCIDENCE_STRATA = ["equal-ordinal", "ragged-newcomers", "inflated-twin", "same-sigma", "zero-mu", "newcomers", "integers", "sure-thing"]
 
 
 def gen_config(rng, default_bias=0.4):
@@ -232,6 +235,10 @@ def gen_game(rng, kind=None, stratum=None, ties=None, n=None, maxsize=8, encode=
     _CYCLE[0] += 1
     rng.random()                      # (keeps the stream aligned with earlier corpus seeds as far as possible)
     kind = kind or KINDS[cyc % 5]
+    if stratum in ("typical", "wide", "corners") and cyc % 6 == 5 and n is None:
+        # checks that ask for a generic stratum get one of the coincidence strata every sixth time (value coincidences are nobody's
+        # special case: every property quantifies over them)
+        stratum = COINCIDENCE_STRATA[(cyc // 6) % len(COINCIDENCE_STRATA)]
     stratum = stratum or rng.choice(STRATA)
     beta, kappa, tau = gen_config(rng)
     if stratum == "floor" and n is None:
@@ -240,7 +247,18 @@ def gen_game(rng, kind=None, stratum=None, ties=None, n=None, maxsize=8, encode=
         beta = DEFAULTS["beta"]
         if rng.random() < 0.6:
             tau = 0.0
-    if stratum == "inflated-twin":
+    if stratum == "sure-thing":
+        # a small unit, a settled solo favourite (sigma 1e-4 beta) meeting a team about 20 beta weaker, tau (almost) 0: the expected result
+        # moves everybody by amounts far below any absolute threshold one might be tempted to write — and they still have to balance
+        beta = DEFAULTS["beta"] * rng.choice([1e-3, 1e-3, 1e-2, 1.0])
+        tau = rng.choice([0.0, 0.0, 1e-9 * beta])
+        teams = [[(rng.uniform(-2, 2) * beta, 1e-4 * beta * rng.uniform(1.0, 3.0))],
+                 [(rng.uniform(-20, -14) * beta / k_, rng.uniform(0.5, 3.0) * beta) for k_ in [rng.randint(1, 3)] for _ in range(k_)]]
+        if rng.random() < 0.4:
+            teams.append([(rng.uniform(-20, -10) * beta, rng.uniform(0.5, 3.0) * beta)])
+        if rng.random() < 0.5:
+            teams.reverse()
+    elif stratum == "inflated-twin":
         # a player next to one with the same mu whose sigma is exactly the first one's sigma inflated once by this model's tau
         # (somebody who sat out a game): two different players, whatever == on (mu, sigma) says at any moment during the call
         if tau == 0.0:
@@ -283,7 +301,7 @@ def gen_game(rng, kind=None, stratum=None, ties=None, n=None, maxsize=8, encode=
         ls = u2 < 0.25
         if "l" in osel:
             lsopt = rng.random() < 0.5
-    if stratum == "inflated-twin":
+    if stratum in ("inflated-twin", "sure-thing"):
         tauopt = None
     return make_game(kind, teams, oc=oc, beta=beta, kappa=kappa, tau=tau, ls=ls, gamma=gamma,
                      tauopt=tauopt, lsopt=lsopt)
